@@ -21,6 +21,9 @@ whatever interleaving happened before, fairness from then on finishes the run.
 `C03_fair_terminates`: from the start, `3n + 1` rounds suffice, for every acyclic configuration and
 every outcome assignment; the state reached is a reachable one (`C03_fair_is_interleaving`), so
 everything proved for arbitrary interleavings (C01, C02, `C03_once`, `C03_terminal`) applies to it.
+`C03_fair_run_final` puts C02 and C03 together with no hypothesis about the reached state left over:
+the fair run from `init`, completed by the goroutines' last writes, is terminal and every stage has
+its `final` status.
 -/
 namespace Sched
 
@@ -55,10 +58,11 @@ theorem C03_once (c : Cfg) (as : List Act) (s : Nat) :
 executed once if its final status is `done` or `error` — i.e. its condition did not exclude it and
 none of its dependencies blocked it — and not at all otherwise. -/
 theorem C03_terminal (c okf rank) (hac : Acyclic c rank) (hne : ∀ s, c.cond s ≠ .err)
-    (as : List Act) (has : ∀ a ∈ as, Respects okf a) (ht : Terminal (run c init as)) (s : Nat) :
+    (as : List Act) (has : ∀ a ∈ as, Respects okf a) (n : Nat) (ht : Terminal n (run c init as))
+    (s : Nat) (hsn : s < n) :
     ((run c init as).starts s = 1 ↔ (final c okf rank s = .done ∨ final c okf rank s = .error)) ∧
     ((run c init as).starts s = 0 ↔ (final c okf rank s = .skipped ∨ final c okf rank s = .canceled)) := by
-  have hfin := C02_final c okf rank hac hne as has ht s
+  have hfin := C02_final c okf rank hac hne as has n ht s hsn
   have honce := once_run c as s
   have hi := inv_run c as
   obtain ⟨_, hag⟩ := agree_run c okf _ (final_isFinal c okf rank hac) hne as has
@@ -68,7 +72,7 @@ theorem C03_terminal (c okf rank) (hac : Acyclic c rank) (hne : ∀ s, c.cond s 
   have hga := hi.g_after s
   have herr := hag.err_run s
   have hst := hag.started s
-  have ht' := ht s
+  have ht' := ht s hsn
   have hgc := gcases (run c init as) s
   rw [← hfin]
   generalize run c init as = σ at *
@@ -143,11 +147,11 @@ theorem C03_completion_decreases (c : Cfg) (σ : St) (s : Nat) (ok : Bool) :
       simp only [step, h, if_true]; split <;> simp [upd_apply]
     grind
 
-/-- weight zero everywhere = the run is over -/
-theorem C03_weight_zero_terminal (c : Cfg) (σ : St) (hi : Inv c σ) (h : ∀ s, weight σ s = 0) :
-    Terminal σ := by
-  intro s
-  have h0 := h s
+/-- weight zero on every stage of the pipeline = the run is over -/
+theorem C03_weight_zero_terminal (c : Cfg) (σ : St) (hi : Inv c σ) (n : Nat)
+    (h : ∀ s, s < n → weight σ s = 0) : Terminal n σ := by
+  intro s hs
+  have h0 := h s hs
   have h1 := weight_cases σ s
   have hgr := hi.run_g s
   have hgn := hi.g_none s
@@ -269,8 +273,45 @@ theorem C03_fair_terminates (c : Cfg) (rank : Nat → Nat) (hac : Acyclic c rank
 
 /-- the state the fair schedule ends in is reached by an ordinary interleaving of the model -/
 theorem C03_fair_is_interleaving (c : Cfg) (okf : Nat → Bool) (n k : Nat) :
-    ∃ as, rounds c okf n k init = run c init as :=
-  rounds_is_run c okf n k init
+    ∃ as, rounds c okf n k init = run c init as ∧ ∀ a ∈ as, Respects okf a :=
+  let ⟨as, h, hp⟩ := rounds_is_run c okf n k init
+  ⟨as, h, fun a ha => (hp a ha).1⟩
+
+/-- **C03 and C02 together, closed**: for every acyclic configuration over the stages `0 … n-1`
+whose conditions can be evaluated and every assignment of outcomes, the fair run — followed by the
+`wg.Wait()` of `Schedule` (every goroutine finishes) — ends: no stage is left waiting or running,
+and every stage has exactly the status `final` prescribes.  No hypothesis about the state is left:
+this is a statement about `init`. -/
+theorem C03_fair_run_final (c : Cfg) (rank : Nat → Nat) (hac : Acyclic c rank) (n : Nat)
+    (hclosed : ∀ s, s < n → ∀ d ∈ c.deps s, d < n) (okf : Nat → Bool)
+    (hne : ∀ s, c.cond s ≠ .err) :
+    Terminal n (run c (fairFinal c okf n) (drainActs okf n)) ∧
+    ∀ s, s < n → (run c (fairFinal c okf n) (drainActs okf n)).status s = final c okf rank s := by
+  obtain ⟨as, has, hp⟩ := rounds_is_run c okf n (3 * n + 1) init
+  have hτ : fairFinal c okf n = run c init as := has
+  -- the loop has exited because every stage is decided, not because of a cancellation
+  have hnc : (fairFinal c okf n).cancelled = false := by
+    rw [hτ, cancelled_run c hne as init (fun a ha => (hp a ha).2)]; rfl
+  have hdone : isDone n (fairFinal c okf n) = true := by
+    rcases C03_fair_terminates c rank hac n hclosed okf with h | h
+    · exact h
+    · unfold fairFinal at hnc; rw [hnc] at h; cases h
+  have hst := isDone_settled n _ hdone
+  obtain ⟨d1, d2⟩ := drain_settles c okf (List.range n) (fairFinal c okf n)
+  have hterm : Terminal n (run c (fairFinal c okf n) (drainActs okf n)) := by
+    intro s hs
+    have hg := d1 s (.inl (List.mem_range.mpr hs))
+    have hw := d2 s
+    exact ⟨fun h => (hst s hs).1 (hw.1 h), fun h => (hst s hs).2 (hw.2 h), hg.2⟩
+  refine ⟨hterm, ?_⟩
+  have hrun : run c (fairFinal c okf n) (drainActs okf n) = run c init (as ++ drainActs okf n) := by
+    rw [run_append, ← hτ]
+  rw [hrun] at hterm ⊢
+  exact C02_final c okf rank hac hne (as ++ drainActs okf n)
+    (fun a ha => by
+      rcases List.mem_append.mp ha with h | h
+      · exact (hp a h).1
+      · exact (drainActs_props okf n a h).1) n hterm
 
 /-! ## Non-vacuity -/
 example : ∃ s, s < 4 ∧ (run exCfg2 init []).status s = .waiting ∧
